@@ -145,6 +145,7 @@ def run(prog, rep, tier):
     else:
         r1.unanalysable("no write of end_of_data found", fv.loc())
 
+    check_reset_scope(prog, r1)
     r2 = rep.rule("R13.2", "every PDU type a cache can send has a handler; Cache Reset restarts the snapshot")
     r2.analysed(prog.name(sk))
     handled = set()
@@ -318,3 +319,33 @@ def run(prog, rep, tier):
                 else:
                     r4.fail(prog.name(sk), "identity:" + short(name), "%s uses %s as the cache identity, not the session's remote_addr Arc" % (short(name), show(e, 60)), bv.loc(bi))
     r4.floor("cache-identity sites in serve_inner", n4, 3)
+
+
+def check_reset_scope(prog, r):
+    """TableManager::rpki_reset(cache, snapshot) replaces the VRPs of *that cache*: it drops the cache's VRPs (drop_source with the
+    cache's address) and then inserts the snapshot.  Dropping after inserting removes what was just installed (the new VRPs carry
+    the same source); building a fresh table and swapping it in wipes every other cache's VRPs."""
+    k = prog.one(r"rustybgpd::table_manager::TableManager::rpki_reset")
+    fv = view(prog, k)
+    r.analysed(prog.name(k))
+    drops = [b for b, t in fv.calls(re.compile(r"rustybgp_table::RpkiTable::drop_source$"))]
+    ins = [b for b, t in fv.calls(re.compile(r"rustybgp_table::RpkiTable::insert$"))]
+    if not ins:
+        r.unanalysable("rpki_reset never inserts the snapshot", fv.loc())
+        return
+    if not drops:
+        r.fail(prog.name(k), "reset-without-drop-source", "rpki_reset does not drop the cache's previous VRPs with drop_source(cache): either stale VRPs of the cache survive the reset, or "
+               "(when the whole table is replaced instead) every other cache's VRPs are wiped", fv.loc())
+    elif all(any(fv.dominates(d, i) for d in drops) for i in ins) and not any(d in fv.reach_after(i) for d in drops for i in ins):
+        r.ok("rpki_reset: drop_source(cache) dominates every insert of the snapshot and never follows one")
+    else:
+        r.fail(prog.name(k), "reset-drop-after-insert", "rpki_reset can call drop_source(cache) after inserting snapshot VRPs: the VRPs just installed carry that source and are removed again, "
+               "so the cache ends up with none", fv.loc(drops[0]))
+    # the shared table is updated in place: no new RpkiTable is built or stored over the old one
+    news = [b for b, t in fv.calls(re.compile(r"rustybgp_table::RpkiTable::(new|default)$|.*Default::default$")) if "RpkiTable" in (t["f"].get("name", "") + t["f"].get("ga", "") + fv.f["locals"][t["dest"]["l"]])]
+    whole = [bi for bi in fv.live for st in fv.blocks[bi]["s"] if "rv" in st and (st["p"].get("p") or [])[-1:] == ["*"] and "RpkiTable" in fv.f["locals"][st["p"]["l"]]
+             and st["rv"]["r"] == "use" and not (st["rv"]["o"].get("c") or st["rv"]["o"].get("m") or {}).get("p")]
+    if news or whole:
+        r.fail(prog.name(k), "reset-replaces-table", "rpki_reset builds a new RpkiTable / overwrites the shared one: the VRPs of every other cache disappear with the End-of-Data of this one", fv.loc((news or whole)[0]))
+    else:
+        r.ok("rpki_reset updates the shared table in place")
